@@ -1,0 +1,34 @@
+// SPDX-FileCopyrightText: 2026 The Pion community <https://pion.ly>
+// SPDX-License-Identifier: MIT
+
+package sctp
+
+// Identifiers of the verification hook call sites. The hooks themselves are
+// compiled in only with the "verif" build tag (verif_hooks_on.go); without it
+// vfHook and vfYield are empty functions (verif_hooks_off.go).
+
+// hook event kinds.
+const (
+	vfEvAdmit       = iota // new DATA about to be admitted under cwnd/rwnd (before rwnd decrement)
+	vfEvAdmitProbe         // new DATA about to be admitted as a zero window probe
+	vfEvT3Before           // T3-rtx expired, before cwnd/ssthresh are adjusted
+	vfEvT3After            // T3-rtx expired, after cwnd/ssthresh were adjusted
+	vfEvFRBefore           // entering fast recovery, before cwnd/ssthresh are adjusted
+	vfEvFRAfter            // entering fast recovery, after cwnd/ssthresh were adjusted
+	vfEvRTTSample          // an RTT sample from a DATA chunk is fed to the RTO manager
+	vfEvRTTSampleHB        // an RTT sample from a HEARTBEAT-ACK is fed to the RTO manager
+	vfEvChunksEnd          // all chunks of an inbound packet have been handled
+	vfEvGatherEnd          // gatherOutbound is about to return
+	vfEvTimerEnd           // a retransmission timer callback is about to return
+)
+
+// yield sites.
+const (
+	vfSiteAckRelease     = iota // processAcknowledgement: lock dropped around onBufferReleased
+	vfSiteResetRelease          // resetStreamsIfAny: lock dropped around onInboundStreamReset
+	vfSiteBlockWait             // sendPayloadData: blocking-write wait
+	vfSiteBeforeWrite           // writeLoop: between gatherOutbound and netConn.Write
+	vfSiteAfterRead             // readLoop: between netConn.Read and handleInbound
+	vfSiteAfterPacketize        // WriteSCTP: between packetize and sendPayloadData
+	vfSiteBeforeCallback        // onBufferReleased: immediately before the user callback
+)
